@@ -8,6 +8,9 @@ import Mathlib.Tactic.Ring
 import Mathlib.Tactic.FieldSimp
 import Mathlib.Algebra.BigOperators.Fin
 import Mathlib.Algebra.BigOperators.Ring.Finset
+import Mathlib.Algebra.BigOperators.Field
+import Mathlib.Tactic.Linarith
+import Mathlib.Algebra.Order.BigOperators.Group.Finset
 
 /-!
 # C14 — factorisation and sparse kernels are exact on every pattern (spec level)
@@ -570,4 +573,569 @@ theorem dense_factor_then_solve_exact {n p m : Nat} (sqrtF : K → K) (hsq : Exa
     have res := C13.solve_solves_full_system .dense st d (KKT.regFactor .dense st d k false (innerLLT sqrtF)) r old out slv hf hcoh' hex hin' h
     exact ⟨res.1, res.2.1, res.2.2.1, res.2.2.2.1⟩
 end llt
+end Piqp.C14
+
+/-! ## Quasi-definite matrices are strongly factorisable (Vanderbei), in the model
+
+The reduced KKT matrices of a convex problem at an interior iterate are symmetric quasi-definite; the class is closed under
+symmetric permutation and under taking Schur complements, and its members have non-zero diagonal. Hence the pivot-free LDLᵀ
+recursion — the model of both `sparse::LDLt` and `dense::LDLTNoPivot` — never meets a zero pivot on them, for every
+elimination order; likewise Cholesky on the fully reduced (positive definite) block of the dense back end. -/
+
+namespace Piqp.C14
+open Finset
+section qd
+variable {K : Type} [Field K] [LinearOrder K] [IsStrictOrderedRing K]
+
+/-- the quadratic form `xᵀ A x` -/
+def quad {n : Nat} (A : Mat K n n) (x : Vec K n) : K := ∑ i : Fin n, x[i] * ∑ j : Fin n, A[i][j] * x[j]
+
+/-- **symmetric quasi-definite** with respect to a sign pattern `σ` of the indices: the form is positive on vectors
+    supported on the `+` indices and negative on vectors supported on the `−` indices (off-diagonal blocks arbitrary).
+    The reduced KKT matrices of a convex problem at an interior iterate are of this kind (`+` on the `x` block, `−` on the
+    multiplier blocks), and so is every symmetric permutation of them. -/
+structure QDef {n : Nat} (σ : Fin n → Bool) (A : Mat K n n) : Prop where
+  sym : ∀ i j : Fin n, A[i][j] = A[j][i]
+  pos : ∀ x : Vec K n, (∀ i : Fin n, σ i = false → x[i] = 0) → (∃ i : Fin n, x[i] ≠ 0) → 0 < quad A x
+  neg : ∀ x : Vec K n, (∀ i : Fin n, σ i = true → x[i] = 0) → (∃ i : Fin n, x[i] ≠ 0) → quad A x < 0
+
+/-- the form on a vector `(t, y)`, split along the first row/column -/
+theorem quad_cons {n : Nat} (A : Mat K (n+1) (n+1)) (hs : ∀ i j : Fin (n+1), A[i][j] = A[j][i]) (t : K) (y : Vec K n) :
+    quad A (consV t y) =
+      A[(0 : Fin (n+1))][(0 : Fin (n+1))] * t * t + 2 * t * (∑ j : Fin n, A[j.succ][(0 : Fin (n+1))] * y[j]) +
+        ∑ i : Fin n, y[i] * ∑ j : Fin n, A[i.succ][j.succ] * y[j] := by
+  unfold quad
+  rw [Fin.sum_univ_succ]
+  have hrow : ∀ r : Fin (n+1), (∑ j : Fin (n+1), A[r][j] * (consV t y)[j]) =
+      A[r][(0 : Fin (n+1))] * t + ∑ j : Fin n, A[r][j.succ] * y[j] := by
+    intro r
+    rw [Fin.sum_univ_succ]
+    simp only [consV_zero, consV_succ]
+  simp only [hrow, consV_zero, consV_succ]
+  have h0 : (∑ j : Fin n, A[(0 : Fin (n+1))][j.succ] * y[j]) = ∑ j : Fin n, A[j.succ][(0 : Fin (n+1))] * y[j] :=
+    Finset.sum_congr rfl fun j _ => by rw [hs]
+  rw [h0]
+  have h1 : (∑ i : Fin n, y[i] * (A[i.succ][(0 : Fin (n+1))] * t + ∑ j : Fin n, A[i.succ][j.succ] * y[j])) =
+      t * (∑ j : Fin n, A[j.succ][(0 : Fin (n+1))] * y[j]) + ∑ i : Fin n, y[i] * ∑ j : Fin n, A[i.succ][j.succ] * y[j] := by
+    simp only [mul_add, Finset.sum_add_distrib, Finset.mul_sum]
+    congr 1
+    exact Finset.sum_congr rfl fun i _ => by ring
+  rw [h1]
+  ring
+
+theorem quad_schur {n : Nat} (A : Mat K (n+1) (n+1)) (y : Vec K n) (hd : A[(0 : Fin (n+1))][(0 : Fin (n+1))] ≠ 0) :
+    quad (schur A (colDiv A A[(0 : Fin (n+1))][(0 : Fin (n+1))]) A[(0 : Fin (n+1))][(0 : Fin (n+1))]) y =
+      (∑ i : Fin n, y[i] * ∑ j : Fin n, A[i.succ][j.succ] * y[j]) -
+        (∑ j : Fin n, A[j.succ][(0 : Fin (n+1))] * y[j]) * (∑ j : Fin n, A[j.succ][(0 : Fin (n+1))] * y[j]) / A[(0 : Fin (n+1))][(0 : Fin (n+1))] := by
+  unfold quad
+  simp only [schur_get, colDiv_get]
+  set d0 := A[(0 : Fin (n+1))][(0 : Fin (n+1))] with hd0
+  set κ := ∑ j : Fin n, A[j.succ][(0 : Fin (n+1))] * y[j] with hκ
+  have h1 : ∀ i : Fin n, (∑ j : Fin n, (A[i.succ][j.succ] - A[i.succ][(0 : Fin (n+1))] / d0 * d0 * (A[j.succ][(0 : Fin (n+1))] / d0)) * y[j]) =
+      (∑ j : Fin n, A[i.succ][j.succ] * y[j]) - A[i.succ][(0 : Fin (n+1))] / d0 * κ := by
+    intro i
+    rw [hκ, Finset.mul_sum, ← Finset.sum_sub_distrib]
+    exact Finset.sum_congr rfl fun j _ => by field_simp
+  simp only [h1, mul_sub, Finset.sum_sub_distrib]
+  congr 1
+  have : (∑ i : Fin n, y[i] * (A[i.succ][(0 : Fin (n+1))] / d0 * κ)) = (∑ i : Fin n, A[i.succ][(0 : Fin (n+1))] * y[i]) * κ / d0 := by
+    rw [Finset.sum_mul, Finset.sum_div]
+    exact Finset.sum_congr rfl fun i _ => by field_simp
+  rw [this]
+
+theorem consV_zero_vec_get {n : Nat} (i : Fin n) : (Vector.ofFn fun _ : Fin n => (0 : K))[i] = 0 := by simp
+
+/-- a quasi-definite matrix has a non-zero first pivot, of the sign of its index -/
+theorem qdef_pivot {n : Nat} (σ : Fin (n+1) → Bool) (A : Mat K (n+1) (n+1)) (h : QDef σ A) :
+    (σ 0 = true → 0 < A[(0 : Fin (n+1))][(0 : Fin (n+1))]) ∧ (σ 0 = false → A[(0 : Fin (n+1))][(0 : Fin (n+1))] < 0) := by
+  have hq : quad A (consV 1 (Vector.ofFn fun _ : Fin n => (0 : K))) = A[(0 : Fin (n+1))][(0 : Fin (n+1))] := by
+    rw [quad_cons A h.sym]
+    simp
+  have hne : ∃ i : Fin (n+1), (consV (1 : K) (Vector.ofFn fun _ : Fin n => (0 : K)))[i] ≠ 0 := ⟨0, by rw [consV_zero]; exact one_ne_zero⟩
+  constructor
+  · intro h0
+    rw [← hq]
+    apply h.pos _ _ hne
+    intro i hi
+    refine Fin.cases (motive := fun i => σ i = false → (consV (1 : K) (Vector.ofFn fun _ : Fin n => (0 : K)))[i] = 0) ?_ ?_ i hi
+    · intro hc; rw [h0] at hc; cases hc
+    · intro j _; rw [consV_succ]; exact consV_zero_vec_get j
+  · intro h0
+    rw [← hq]
+    apply h.neg _ _ hne
+    intro i hi
+    refine Fin.cases (motive := fun i => σ i = true → (consV (1 : K) (Vector.ofFn fun _ : Fin n => (0 : K)))[i] = 0) ?_ ?_ i hi
+    · intro hc; rw [h0] at hc; cases hc
+    · intro j _; rw [consV_succ]; exact consV_zero_vec_get j
+
+theorem consV_support {n : Nat} (σ : Fin (n+1) → Bool) (bv : Bool) (t : K) (y : Vec K n)
+    (h0 : σ 0 = bv → t = 0) (hy : ∀ i : Fin n, σ i.succ = bv → y[i] = 0) :
+    ∀ i : Fin (n+1), σ i = bv → (consV t y)[i] = 0 := by
+  intro i
+  refine Fin.cases (motive := fun i => σ i = bv → (consV t y)[i] = 0) ?_ ?_ i
+  · intro h; rw [consV_zero]; exact h0 h
+  · intro j h; rw [consV_succ]; exact hy j h
+
+theorem consV_ne {n : Nat} (t : K) (y : Vec K n) (hy : ∃ i : Fin n, y[i] ≠ 0) : ∃ i : Fin (n+1), (consV t y)[i] ≠ 0 := by
+  obtain ⟨i, hi⟩ := hy
+  exact ⟨i.succ, by rw [consV_succ]; exact hi⟩
+
+/-- **the Schur complement of a quasi-definite matrix is quasi-definite** (for the sign pattern of the remaining indices) -/
+theorem qdef_schur {n : Nat} (σ : Fin (n+1) → Bool) (A : Mat K (n+1) (n+1)) (h : QDef σ A) :
+    QDef (fun i : Fin n => σ i.succ)
+      (schur A (colDiv A A[(0 : Fin (n+1))][(0 : Fin (n+1))]) A[(0 : Fin (n+1))][(0 : Fin (n+1))]) := by
+  obtain ⟨hp, hn⟩ := qdef_pivot σ A h
+  have hd : A[(0 : Fin (n+1))][(0 : Fin (n+1))] ≠ 0 := by
+    cases h0 : σ 0
+    · exact ne_of_lt (hn h0)
+    · exact ne_of_gt (hp h0)
+  set d0 := A[(0 : Fin (n+1))][(0 : Fin (n+1))] with hd0
+  refine ⟨?_, ?_, ?_⟩
+  · intro i j
+    simp only [schur_get, colDiv_get]
+    rw [h.sym i.succ j.succ]
+    ring
+  · intro y hy hne
+    rw [quad_schur A y hd]
+    set κ := ∑ j : Fin n, A[j.succ][(0 : Fin (n+1))] * y[j] with hκ
+    set QN := ∑ i : Fin n, y[i] * ∑ j : Fin n, A[i.succ][j.succ] * y[j] with hQN
+    cases h0 : σ 0
+    · -- the eliminated index is a `−` one: pad with 0
+      have hd0neg := hn h0
+      have hx := h.pos (consV 0 y) (consV_support σ false 0 y (fun _ => rfl) hy) (consV_ne 0 y hne)
+      rw [quad_cons A h.sym] at hx
+      have : 0 ≤ -(κ * κ / d0) := by
+        rw [neg_nonneg]
+        exact div_nonpos_of_nonneg_of_nonpos (mul_self_nonneg κ) (le_of_lt hd0neg)
+      simp only [mul_zero, zero_mul, zero_add] at hx
+      linarith
+    · have hd0pos := hp h0
+      have hx := h.pos (consV (-κ / d0) y) (consV_support σ false _ y (fun hc => by rw [h0] at hc; cases hc) hy) (consV_ne _ y hne)
+      rw [quad_cons A h.sym] at hx
+      have e : d0 * (-κ / d0) * (-κ / d0) + 2 * (-κ / d0) * κ = -(κ * κ / d0) := by field_simp; ring
+      linarith
+  · intro y hy hne
+    rw [quad_schur A y hd]
+    set κ := ∑ j : Fin n, A[j.succ][(0 : Fin (n+1))] * y[j] with hκ
+    set QN := ∑ i : Fin n, y[i] * ∑ j : Fin n, A[i.succ][j.succ] * y[j] with hQN
+    cases h0 : σ 0
+    · have hd0neg := hn h0
+      have hx := h.neg (consV (-κ / d0) y) (consV_support σ true _ y (fun hc => by rw [h0] at hc; cases hc) hy) (consV_ne _ y hne)
+      rw [quad_cons A h.sym] at hx
+      have e : d0 * (-κ / d0) * (-κ / d0) + 2 * (-κ / d0) * κ = -(κ * κ / d0) := by field_simp; ring
+      linarith
+    · have hd0pos := hp h0
+      have hx := h.neg (consV 0 y) (consV_support σ true 0 y (fun _ => rfl) hy) (consV_ne 0 y hne)
+      rw [quad_cons A h.sym] at hx
+      have : 0 ≤ κ * κ / d0 := div_nonneg (mul_self_nonneg κ) (le_of_lt hd0pos)
+      simp only [mul_zero, zero_mul, zero_add] at hx
+      linarith
+
+/-- **Vanderbei's theorem for the model's factorisation**: the pivot-free LDLᵀ recursion never meets a zero pivot on a
+    symmetric quasi-definite matrix — for every size and every sign pattern, hence (the class is closed under symmetric
+    permutation, `qdef_perm`) for every elimination order. -/
+theorem qdef_ldlt_ok : ∀ (n : Nat) (σ : Fin n → Bool) (A : Mat K n n), QDef σ A → ∃ LD, ldlt n A = .ok LD
+  | 0, _, _, _ => ⟨_, rfl⟩
+  | n+1, σ, A, h => by
+    obtain ⟨hp, hn⟩ := qdef_pivot σ A h
+    have hd : A[(0 : Fin (n+1))][(0 : Fin (n+1))] ≠ 0 := by
+      cases h0 : σ 0
+      · exact ne_of_lt (hn h0)
+      · exact ne_of_gt (hp h0)
+    obtain ⟨LD, hrec⟩ := qdef_ldlt_ok n _ _ (qdef_schur σ A h)
+    unfold ldlt
+    simp only [beq_iff_eq, hd, if_false, hrec]
+    exact ⟨_, rfl⟩
+
+/-- the form of a symmetrically permuted matrix is the form of the matrix at the vector permuted back -/
+theorem quad_perm {N : Nat} (A : Mat K N N) (p : Vector (Fin N) N) (hp : IsPerm p) (y : Vec K N) :
+    quad (permSym A p) y = quad A (permtVec p y) := by
+  unfold quad
+  have hx : ∀ i : Fin N, (permtVec p y)[p[i]] = y[i] := by
+    intro i; rw [permtVec_get]; exact congrArg (fun k : Fin N => y[k]) (hp.left i)
+  have inner : ∀ r : Fin N, (∑ l : Fin N, A[r][l] * (permtVec p y)[l]) = ∑ j : Fin N, A[r][p[j]] * y[j] := by
+    intro r
+    rw [← Function.Bijective.sum_comp hp.bij (fun l => A[r][l] * (permtVec p y)[l])]
+    exact Finset.sum_congr rfl fun j _ => by rw [hx]
+  rw [← Function.Bijective.sum_comp hp.bij (fun k => (permtVec p y)[k] * ∑ l : Fin N, A[k][l] * (permtVec p y)[l])]
+  refine Finset.sum_congr rfl fun i _ => ?_
+  simp only [hx, inner, permSym_get]
+
+/-- **quasi-definiteness is invariant under symmetric permutation**, with the sign pattern permuted along -/
+theorem qdef_perm {N : Nat} (σ : Fin N → Bool) (A : Mat K N N) (p : Vector (Fin N) N) (hp : IsPerm p) (h : QDef σ A) :
+    QDef (fun i => σ p[i]) (permSym A p) := by
+  refine ⟨?_, ?_, ?_⟩
+  · intro i j; rw [permSym_get, permSym_get, h.sym]
+  · intro y hy hne
+    rw [quad_perm A p hp y]
+    apply h.pos
+    · intro k hk
+      rw [permtVec_get]
+      apply hy
+      rw [hp k]; exact hk
+    · obtain ⟨i, hi⟩ := hne
+      exact ⟨p[i], by rw [permtVec_get, show y[(permInv p)[p[i]]] = y[i] from congrArg (fun k : Fin N => y[k]) (hp.left i)]; exact hi⟩
+  · intro y hy hne
+    rw [quad_perm A p hp y]
+    apply h.neg
+    · intro k hk
+      rw [permtVec_get]
+      apply hy
+      rw [hp k]; exact hk
+    · obtain ⟨i, hi⟩ := hne
+      exact ⟨p[i], by rw [permtVec_get, show y[(permInv p)[p[i]]] = y[i] from congrArg (fun k : Fin N => y[k]) (hp.left i)]; exact hi⟩
+
+theorem sum_neg_of_nonpos_of_neg {q : Nat} (f : Fin q → K) (hle : ∀ u, f u ≤ 0) (t : Fin q) (ht : f t < 0) : ∑ u, f u < 0 := by
+  rw [← Finset.add_sum_erase _ _ (Finset.mem_univ t)]
+  have := Finset.sum_nonpos (s := Finset.univ.erase t) (f := f) (fun u _ => hle u)
+  linarith
+
+/-- Cholesky with an exact square root never meets a non-positive pivot on a symmetric positive definite matrix -/
+theorem pd_llt_ok (sqrtF : K → K) (hsq : ExactSqrt sqrtF) : ∀ (n : Nat) (A : Mat K n n), QDef (fun _ => true) A →
+    ∃ L, llt sqrtF n A = .ok L
+  | 0, _, _ => ⟨_, rfl⟩
+  | n+1, A, h => by
+    obtain ⟨hp, _⟩ := qdef_pivot (fun _ => true) A h
+    have hx : 0 < A[(0 : Fin (n+1))][(0 : Fin (n+1))] := hp rfl
+    have hl : sqrtF A[(0 : Fin (n+1))][(0 : Fin (n+1))] * sqrtF A[(0 : Fin (n+1))][(0 : Fin (n+1))] = A[(0 : Fin (n+1))][(0 : Fin (n+1))] := hsq _ hx
+    have hl0 : sqrtF A[(0 : Fin (n+1))][(0 : Fin (n+1))] ≠ 0 := by
+      intro h0; rw [h0, mul_zero] at hl; exact absurd hl.symm (ne_of_gt hx)
+    have hS : schur A (colDiv A (sqrtF A[(0 : Fin (n+1))][(0 : Fin (n+1))])) 1 =
+        schur A (colDiv A A[(0 : Fin (n+1))][(0 : Fin (n+1))]) A[(0 : Fin (n+1))][(0 : Fin (n+1))] := by
+      apply Vector.ext; intro i hi
+      apply Vector.ext; intro j hj
+      have e1 := schur_get A (colDiv A (sqrtF A[(0 : Fin (n+1))][(0 : Fin (n+1))])) 1 ⟨i, hi⟩ ⟨j, hj⟩
+      have e2 := schur_get A (colDiv A A[(0 : Fin (n+1))][(0 : Fin (n+1))]) A[(0 : Fin (n+1))][(0 : Fin (n+1))] ⟨i, hi⟩ ⟨j, hj⟩
+      rw [colDiv_get, colDiv_get] at e1 e2
+      have hxne : A[(0 : Fin (n+1))][(0 : Fin (n+1))] ≠ 0 := ne_of_gt hx
+      have key : A[(⟨i, hi⟩ : Fin n).succ][(0 : Fin (n+1))] / sqrtF A[(0 : Fin (n+1))][(0 : Fin (n+1))] * 1 *
+            (A[(⟨j, hj⟩ : Fin n).succ][(0 : Fin (n+1))] / sqrtF A[(0 : Fin (n+1))][(0 : Fin (n+1))]) =
+          A[(⟨i, hi⟩ : Fin n).succ][(0 : Fin (n+1))] / A[(0 : Fin (n+1))][(0 : Fin (n+1))] * A[(0 : Fin (n+1))][(0 : Fin (n+1))] *
+            (A[(⟨j, hj⟩ : Fin n).succ][(0 : Fin (n+1))] / A[(0 : Fin (n+1))][(0 : Fin (n+1))]) := by
+        rw [div_mul_cancel₀ _ hxne, mul_one, div_mul_div_comm, hl, mul_div_assoc]
+      rw [key] at e1
+      exact e1.trans e2.symm
+    have hq := qdef_schur (fun _ => true) A h
+    obtain ⟨L', hrec⟩ := pd_llt_ok sqrtF hsq n (schur A (colDiv A (sqrtF A[(0 : Fin (n+1))][(0 : Fin (n+1))])) 1) (by rw [hS]; exact hq)
+    unfold llt
+    simp only [not_le.mpr hx, if_false, hrec]
+    exact ⟨_, rfl⟩
+
+section assembled
+variable {n p m : Nat}
+
+/-- the sign pattern of the assembled reduced KKT matrix: `+` on the `x` block and on the decoupled identity rows of
+    eliminated blocks, `−` on the kept multiplier blocks -/
+def kktSign (be : Backend) (i : Fin (n + p + m)) : Bool :=
+  match Blk.decode (n := n) (p := p) (m := m) i with
+  | .x _ => true
+  | .y _ => !be.keepY
+  | .z _ => !be.keepZ
+
+theorem kktSign_x (be : Backend) (a : Fin n) : kktSign be (ix (p := p) (m := m) a) = true := by
+  unfold kktSign; rw [decode_ix]
+theorem kktSign_y (be : Backend) (t : Fin p) : kktSign be (iy (n := n) (m := m) t) = !be.keepY := by
+  unfold kktSign; rw [decode_iy]
+theorem kktSign_z (be : Backend) (t : Fin m) : kktSign be (iz (n := n) (p := p) t) = !be.keepZ := by
+  unfold kktSign; rw [decode_iz]
+
+/-- block expansion of the form of the assembled matrix -/
+theorem quad_assemble (be : Backend) (kb : KBlocks K n p m) (v : Vec K (n + p + m)) :
+    quad (assemble be kb) v =
+      (∑ a : Fin n, v[ix (p := p) (m := m) a] * ((∑ c : Fin n, kb.xx[a][c] * v[ix (p := p) (m := m) c]) +
+          (∑ t : Fin p, (if be.keepY then kb.xy[a][t] else 0) * v[iy (n := n) (m := m) t]) +
+          (∑ t : Fin m, (if be.keepZ then kb.xz[a][t] else 0) * v[iz (n := n) (p := p) t]))) +
+      (∑ t : Fin p, v[iy (n := n) (m := m) t] * ((∑ c : Fin n, (if be.keepY then kb.xy[c][t] else 0) * v[ix (p := p) (m := m) c]) +
+          (if be.keepY then kb.yy[t] else 1) * v[iy (n := n) (m := m) t])) +
+      (∑ t : Fin m, v[iz (n := n) (p := p) t] * ((∑ c : Fin n, (if be.keepZ then kb.xz[c][t] else 0) * v[ix (p := p) (m := m) c]) +
+          (if be.keepZ then kb.zz[t] else 1) * v[iz (n := n) (p := p) t])) := by
+  unfold quad
+  rw [sum_blocks]
+  have hrow : ∀ r : Fin (n + p + m), (∑ j : Fin (n + p + m), (assemble be kb)[r][j] * v[j]) =
+      (∑ c : Fin n, (assemble be kb)[r][ix (p := p) (m := m) c] * v[ix (p := p) (m := m) c]) +
+      (∑ t : Fin p, (assemble be kb)[r][iy (n := n) (m := m) t] * v[iy (n := n) (m := m) t]) +
+      (∑ t : Fin m, (assemble be kb)[r][iz (n := n) (p := p) t] * v[iz (n := n) (p := p) t]) := fun r => sum_blocks _
+  simp only [hrow, M_xx, M_xy, M_xz, M_yx, M_yy, M_yz, M_zx, M_zy, M_zz,
+    zero_mul, Finset.sum_const_zero, add_zero]
+  congr 1
+  · congr 1
+    refine Finset.sum_congr rfl fun t _ => ?_
+    congr 1
+    congr 1
+    simp [Finset.sum_ite_eq, ite_mul]
+  · refine Finset.sum_congr rfl fun t _ => ?_
+    congr 1
+    simp [Finset.sum_ite_eq, ite_mul]
+
+/-- every index of the assembled range is an `x`, a `y` or a `z` index -/
+theorem blocks_cases (i : Fin (n + p + m)) :
+    (∃ a : Fin n, i = ix (p := p) (m := m) a) ∨ (∃ t : Fin p, i = iy (n := n) (m := m) t) ∨ (∃ t : Fin m, i = iz (n := n) (p := p) t) := by
+  by_cases h1 : i.val < n
+  · exact Or.inl ⟨⟨i.val, h1⟩, Fin.ext rfl⟩
+  · by_cases h2 : i.val < n + p
+    · exact Or.inr (Or.inl ⟨⟨i.val - n, by omega⟩, Fin.ext (by simp only [iy]; omega)⟩)
+    · exact Or.inr (Or.inr ⟨⟨i.val - n - p, by omega⟩, Fin.ext (by simp only [iz]; omega)⟩)
+
+/-- **the assembled reduced KKT matrix is quasi-definite** when its `(1,1)` block is symmetric positive definite and the
+    kept multiplier diagonals are negative -/
+theorem assemble_qdef (be : Backend) (kb : KBlocks K n p m) (hsym : ∀ a b : Fin n, kb.xx[a][b] = kb.xx[b][a])
+    (hpd : ∀ x : Vec K n, (∃ a : Fin n, x[a] ≠ 0) → 0 < quad kb.xx x)
+    (hy : be.keepY = true → ∀ t : Fin p, kb.yy[t] < 0) (hz : be.keepZ = true → ∀ t : Fin m, kb.zz[t] < 0) :
+    QDef (kktSign (n := n) (p := p) (m := m) be) (assemble be kb) := by
+  refine ⟨assemble_symm be kb hsym, ?_, ?_⟩
+  · intro v hv hne
+    rw [quad_assemble]
+    -- on `+`-supported vectors the kept multiplier parts vanish
+    have hyv : be.keepY = true → ∀ t : Fin p, v[iy (n := n) (m := m) t] = 0 := fun hk t => hv _ (by rw [kktSign_y, hk]; rfl)
+    have hzv : be.keepZ = true → ∀ t : Fin m, v[iz (n := n) (p := p) t] = 0 := fun hk t => hv _ (by rw [kktSign_z, hk]; rfl)
+    have e1 : ∀ a : Fin n, (∑ t : Fin p, (if be.keepY then kb.xy[a][t] else 0) * v[iy (n := n) (m := m) t]) = 0 := by
+      intro a; apply Finset.sum_eq_zero; intro t _
+      cases hk : be.keepY
+      · simp
+      · simp [hyv hk t]
+    have e2 : ∀ a : Fin n, (∑ t : Fin m, (if be.keepZ then kb.xz[a][t] else 0) * v[iz (n := n) (p := p) t]) = 0 := by
+      intro a; apply Finset.sum_eq_zero; intro t _
+      cases hk : be.keepZ
+      · simp
+      · simp [hzv hk t]
+    have e3 : ∀ t : Fin p, v[iy (n := n) (m := m) t] * ((∑ c : Fin n, (if be.keepY then kb.xy[c][t] else 0) * v[ix (p := p) (m := m) c]) +
+        (if be.keepY then kb.yy[t] else 1) * v[iy (n := n) (m := m) t]) = v[iy (n := n) (m := m) t] * v[iy (n := n) (m := m) t] := by
+      intro t
+      cases hk : be.keepY
+      · simp
+      · simp [hyv hk t]
+    have e4 : ∀ t : Fin m, v[iz (n := n) (p := p) t] * ((∑ c : Fin n, (if be.keepZ then kb.xz[c][t] else 0) * v[ix (p := p) (m := m) c]) +
+        (if be.keepZ then kb.zz[t] else 1) * v[iz (n := n) (p := p) t]) = v[iz (n := n) (p := p) t] * v[iz (n := n) (p := p) t] := by
+      intro t
+      cases hk : be.keepZ
+      · simp
+      · simp [hzv hk t]
+    simp only [e1, e2, e3, e4, add_zero]
+    have hxq : (∑ a : Fin n, v[ix (p := p) (m := m) a] * ∑ c : Fin n, kb.xx[a][c] * v[ix (p := p) (m := m) c]) =
+        quad kb.xx (Vector.ofFn fun a => v[ix (p := p) (m := m) a]) := by
+      unfold quad
+      simp only [ofFn_get']
+    rw [hxq]
+    have hy2 : 0 ≤ ∑ t : Fin p, v[iy (n := n) (m := m) t] * v[iy (n := n) (m := m) t] := Finset.sum_nonneg fun t _ => mul_self_nonneg _
+    have hz2 : 0 ≤ ∑ t : Fin m, v[iz (n := n) (p := p) t] * v[iz (n := n) (p := p) t] := Finset.sum_nonneg fun t _ => mul_self_nonneg _
+    obtain ⟨i, hi⟩ := hne
+    rcases blocks_cases i with ⟨a, rfl⟩ | ⟨t, rfl⟩ | ⟨t, rfl⟩
+    · have := hpd (Vector.ofFn fun a => v[ix (p := p) (m := m) a]) ⟨a, by rw [ofFn_get']; exact hi⟩
+      linarith
+    · have hx0 : 0 ≤ quad kb.xx (Vector.ofFn fun a => v[ix (p := p) (m := m) a]) := by
+        by_cases hx : ∃ a : Fin n, (Vector.ofFn fun a => v[ix (p := p) (m := m) a])[a] ≠ 0
+        · exact le_of_lt (hpd _ hx)
+        · have hall : ∀ a : Fin n, (Vector.ofFn fun a => v[ix (p := p) (m := m) a])[a] = 0 := fun a => by
+            by_contra hc; exact hx ⟨a, hc⟩
+          unfold quad
+          exact le_of_eq (Finset.sum_eq_zero fun a _ => by rw [hall a, zero_mul]).symm
+      have hpos : 0 < ∑ t : Fin p, v[iy (n := n) (m := m) t] * v[iy (n := n) (m := m) t] :=
+        lt_of_lt_of_le (mul_self_pos.mpr hi) (Finset.single_le_sum (f := fun t : Fin p => v[iy (n := n) (m := m) t] * v[iy (n := n) (m := m) t])
+          (fun t _ => mul_self_nonneg _) (Finset.mem_univ t))
+      linarith
+    · have hx0 : 0 ≤ quad kb.xx (Vector.ofFn fun a => v[ix (p := p) (m := m) a]) := by
+        by_cases hx : ∃ a : Fin n, (Vector.ofFn fun a => v[ix (p := p) (m := m) a])[a] ≠ 0
+        · exact le_of_lt (hpd _ hx)
+        · have hall : ∀ a : Fin n, (Vector.ofFn fun a => v[ix (p := p) (m := m) a])[a] = 0 := fun a => by
+            by_contra hc; exact hx ⟨a, hc⟩
+          unfold quad
+          exact le_of_eq (Finset.sum_eq_zero fun a _ => by rw [hall a, zero_mul]).symm
+      have hpos : 0 < ∑ t : Fin m, v[iz (n := n) (p := p) t] * v[iz (n := n) (p := p) t] :=
+        lt_of_lt_of_le (mul_self_pos.mpr hi) (Finset.single_le_sum (f := fun t : Fin m => v[iz (n := n) (p := p) t] * v[iz (n := n) (p := p) t])
+          (fun t _ => mul_self_nonneg _) (Finset.mem_univ t))
+      linarith
+  · intro v hv hne
+    rw [quad_assemble]
+    have hxv : ∀ a : Fin n, v[ix (p := p) (m := m) a] = 0 := fun a => hv _ (kktSign_x be a)
+    have hyv : be.keepY = false → ∀ t : Fin p, v[iy (n := n) (m := m) t] = 0 := fun hk t => hv _ (by rw [kktSign_y, hk]; rfl)
+    have hzv : be.keepZ = false → ∀ t : Fin m, v[iz (n := n) (p := p) t] = 0 := fun hk t => hv _ (by rw [kktSign_z, hk]; rfl)
+    simp only [hxv, zero_mul, mul_zero, Finset.sum_const_zero, zero_add]
+    have ty : ∀ t : Fin p, v[iy (n := n) (m := m) t] * ((if be.keepY then kb.yy[t] else 1) * v[iy (n := n) (m := m) t]) ≤ 0 := by
+      intro t
+      cases hk : be.keepY
+      · simp [hyv hk t]
+      · simp only [if_true]
+        have := hy hk t
+        nlinarith [mul_self_nonneg (v[iy (n := n) (m := m) t])]
+    have tz : ∀ t : Fin m, v[iz (n := n) (p := p) t] * ((if be.keepZ then kb.zz[t] else 1) * v[iz (n := n) (p := p) t]) ≤ 0 := by
+      intro t
+      cases hk : be.keepZ
+      · simp [hzv hk t]
+      · simp only [if_true]
+        have := hz hk t
+        nlinarith [mul_self_nonneg (v[iz (n := n) (p := p) t])]
+    have sy : (∑ t : Fin p, v[iy (n := n) (m := m) t] * ((if be.keepY then kb.yy[t] else 1) * v[iy (n := n) (m := m) t])) ≤ 0 :=
+      Finset.sum_nonpos fun t _ => ty t
+    have sz : (∑ t : Fin m, v[iz (n := n) (p := p) t] * ((if be.keepZ then kb.zz[t] else 1) * v[iz (n := n) (p := p) t])) ≤ 0 :=
+      Finset.sum_nonpos fun t _ => tz t
+    obtain ⟨i, hi⟩ := hne
+    rcases blocks_cases i with ⟨a, rfl⟩ | ⟨t, rfl⟩ | ⟨t, rfl⟩
+    · exact absurd (hxv a) hi
+    · have hk : be.keepY = true := by
+        cases hk : be.keepY
+        · exact absurd (hyv hk t) hi
+        · rfl
+      have hneg : v[iy (n := n) (m := m) t] * ((if be.keepY then kb.yy[t] else 1) * v[iy (n := n) (m := m) t]) < 0 := by
+        simp only [hk, if_true]
+        have := hy hk t
+        nlinarith [mul_self_pos.mpr hi]
+      have := sum_neg_of_nonpos_of_neg _ ty t hneg
+      linarith
+    · have hk : be.keepZ = true := by
+        cases hk : be.keepZ
+        · exact absurd (hzv hk t) hi
+        · rfl
+      have hneg : v[iz (n := n) (p := p) t] * ((if be.keepZ then kb.zz[t] else 1) * v[iz (n := n) (p := p) t]) < 0 := by
+        simp only [hk, if_true]
+        have := hz hk t
+        nlinarith [mul_self_pos.mpr hi]
+      have := sum_neg_of_nonpos_of_neg _ tz t hneg
+      linarith
+
+/-- **the sparse inner factorisation never fails on a convex problem's reduced KKT matrix** (exact arithmetic): whenever the
+    `(1,1)` block is symmetric positive definite and the kept multiplier diagonals are negative — which positive `ρ, δ`, a
+    positive semidefinite `P` and an interior iterate give for every one of the four sparse formulations — `innerLDLT`
+    succeeds, for **every** fill-reducing permutation. -/
+theorem innerLDLT_succeeds (be : Backend) (perm : Vector (Fin (n + p + m)) (n + p + m)) (hperm : IsPerm perm)
+    (kb : KBlocks K n p m) (hsym : ∀ a b : Fin n, kb.xx[a][b] = kb.xx[b][a])
+    (hpd : ∀ x : Vec K n, (∃ a : Fin n, x[a] ≠ 0) → 0 < quad kb.xx x)
+    (hy : be.keepY = true → ∀ t : Fin p, kb.yy[t] < 0) (hz : be.keepZ = true → ∀ t : Fin m, kb.zz[t] < 0) :
+    (innerLDLT be perm kb).isSome = true := by
+  have hq := qdef_perm _ _ perm hperm (assemble_qdef be kb hsym hpd hy hz)
+  obtain ⟨LD, hld⟩ := qdef_ldlt_ok _ _ _ hq
+  unfold innerLDLT
+  simp only [hld]
+  rfl
+
+/-- `Σ_i x_i Σ_j (Σ_t w_t B[i][t] B[j][t]) x_j = Σ_t w_t (Σ_i B[i][t] x_i)²` -/
+theorem gram_quad {q : Nat} (B : Mat K n q) (w : Fin q → K) (x : Vec K n) :
+    (∑ i : Fin n, x[i] * ∑ j : Fin n, (∑ t : Fin q, w t * (B[i][t] * B[j][t])) * x[j]) =
+      ∑ t : Fin q, w t * ((∑ i : Fin n, B[i][t] * x[i]) * (∑ i : Fin n, B[i][t] * x[i])) := by
+  have h1 : ∀ i : Fin n, x[i] * (∑ j : Fin n, (∑ t : Fin q, w t * (B[i][t] * B[j][t])) * x[j]) =
+      ∑ t : Fin q, w t * ((B[i][t] * x[i]) * ∑ j : Fin n, B[j][t] * x[j]) := by
+    intro i
+    simp only [Finset.sum_mul, Finset.mul_sum]
+    rw [Finset.sum_comm]
+    exact Finset.sum_congr rfl fun t _ => Finset.sum_congr rfl fun j _ => by ring
+  simp only [h1]
+  rw [Finset.sum_comm]
+  refine Finset.sum_congr rfl fun t _ => ?_
+  rw [← Finset.mul_sum, ← Finset.sum_mul]
+
+/-- **the `(1,1)` block of a coherent reduced KKT matrix is positive definite** for a convex problem at an interior iterate:
+    `P ⪰ 0`, `ρ > 0`, `δ > 0`, positive scalings on the inequality and (active) box blocks -/
+theorem coherent_xx_pd (be : Backend) (d : Data K n p m) (k : KKT K n p m) (hc : C13.Coherent be d k)
+    (hP : ∀ x : Vec K n, 0 ≤ quad d.Psym x) (hρ : 0 < k.rho) (hδ : 0 < k.delta)
+    (hw : ∀ t : Fin m, 0 < k.s[t] * k.zinv[t] + k.delta)
+    (hbox : ∀ j : Fin n, 0 ≤ C13.boxTerm d k j) :
+    ∀ x : Vec K n, (∃ a : Fin n, x[a] ≠ 0) → 0 < quad k.k.xx x := by
+  intro x hne
+  have hsplit : quad k.k.xx x =
+      quad d.Psym x + k.rho * (∑ i : Fin n, x[i] * x[i])
+      + (if be.keepY then 0 else ∑ t : Fin p, (1 / k.delta) * ((∑ i : Fin n, d.AT[i][t] * x[i]) * (∑ i : Fin n, d.AT[i][t] * x[i])))
+      + (if be.keepZ then 0 else ∑ t : Fin m, (1 / (k.s[t] * k.zinv[t] + k.delta)) * ((∑ i : Fin n, d.GT[i][t] * x[i]) * (∑ i : Fin n, d.GT[i][t] * x[i])))
+      + ∑ i : Fin n, C13.boxTerm d k i * (x[i] * x[i]) := by
+    unfold quad
+    simp only [hc.xx, add_mul, Finset.sum_add_distrib, mul_add]
+    have e2 : (∑ i : Fin n, x[i] * ∑ j : Fin n, (if i = j then k.rho else 0) * x[j]) = k.rho * ∑ i : Fin n, x[i] * x[i] := by
+      rw [Finset.mul_sum]
+      refine Finset.sum_congr rfl fun i _ => ?_
+      simp only [ite_mul, zero_mul, Finset.sum_ite_eq, Finset.mem_univ, if_true]
+      ring
+    have e5 : (∑ i : Fin n, x[i] * ∑ j : Fin n, (if i = j then C13.boxTerm d k i else 0) * x[j]) = ∑ i : Fin n, C13.boxTerm d k i * (x[i] * x[i]) := by
+      refine Finset.sum_congr rfl fun i _ => ?_
+      simp only [ite_mul, zero_mul, Finset.sum_ite_eq, Finset.mem_univ, if_true]
+      ring
+    have e3 : (∑ i : Fin n, x[i] * ∑ j : Fin n, (if be.keepY = true then 0 else 1 / k.delta * ∑ t : Fin p, d.AT[i][t] * d.AT[j][t]) * x[j]) =
+        (if be.keepY = true then 0 else ∑ t : Fin p, 1 / k.delta * ((∑ i : Fin n, d.AT[i][t] * x[i]) * ∑ i : Fin n, d.AT[i][t] * x[i])) := by
+      cases hk : be.keepY
+      · simp only [Bool.false_eq_true, if_false]
+        rw [← gram_quad d.AT (fun _ => 1 / k.delta) x]
+        refine Finset.sum_congr rfl fun i _ => ?_
+        congr 1
+        refine Finset.sum_congr rfl fun j _ => ?_
+        rw [Finset.mul_sum]
+      · simp
+    have e4 : (∑ i : Fin n, x[i] * ∑ j : Fin n, (if be.keepZ = true then 0 else ∑ t : Fin m, d.GT[i][t] * d.GT[j][t] / (k.s[t] * k.zinv[t] + k.delta)) * x[j]) =
+        (if be.keepZ = true then 0 else ∑ t : Fin m, 1 / (k.s[t] * k.zinv[t] + k.delta) * ((∑ i : Fin n, d.GT[i][t] * x[i]) * ∑ i : Fin n, d.GT[i][t] * x[i])) := by
+      cases hk : be.keepZ
+      · simp only [Bool.false_eq_true, if_false]
+        rw [← gram_quad d.GT (fun t => 1 / (k.s[t] * k.zinv[t] + k.delta)) x]
+        refine Finset.sum_congr rfl fun i _ => ?_
+        congr 1
+        refine Finset.sum_congr rfl fun j _ => ?_
+        congr 1
+        refine Finset.sum_congr rfl fun t _ => ?_
+        ring
+      · simp
+    rw [e2, e3, e4, e5]
+  rw [hsplit]
+  have h2 : 0 < k.rho * (∑ i : Fin n, x[i] * x[i]) := by
+    apply mul_pos hρ
+    obtain ⟨a, ha⟩ := hne
+    exact lt_of_lt_of_le (mul_self_pos.mpr ha) (Finset.single_le_sum (f := fun i : Fin n => x[i] * x[i]) (fun i _ => mul_self_nonneg _) (Finset.mem_univ a))
+  have h3 : 0 ≤ (if be.keepY then (0 : K) else ∑ t : Fin p, (1 / k.delta) * ((∑ i : Fin n, d.AT[i][t] * x[i]) * (∑ i : Fin n, d.AT[i][t] * x[i]))) := by
+    split
+    · exact le_refl _
+    · exact Finset.sum_nonneg fun t _ => mul_nonneg (le_of_lt (one_div_pos.mpr hδ)) (mul_self_nonneg _)
+  have h4 : 0 ≤ (if be.keepZ then (0 : K) else ∑ t : Fin m, (1 / (k.s[t] * k.zinv[t] + k.delta)) * ((∑ i : Fin n, d.GT[i][t] * x[i]) * (∑ i : Fin n, d.GT[i][t] * x[i]))) := by
+    split
+    · exact le_refl _
+    · exact Finset.sum_nonneg fun t _ => mul_nonneg (le_of_lt (one_div_pos.mpr (hw t))) (mul_self_nonneg _)
+  have h5 : 0 ≤ ∑ i : Fin n, C13.boxTerm d k i * (x[i] * x[i]) := Finset.sum_nonneg fun i _ => mul_nonneg (hbox i) (mul_self_nonneg _)
+  have h1 := hP x
+  linarith
+
+theorem boxTerm_nonneg (d : Data K n p m) (k : KKT K n p m)
+    (hl : ∀ a : Fin n, d.lb.act a → 0 < k.zinv_lb[a] * k.s_lb[a] + k.delta)
+    (hu : ∀ a : Fin n, d.ub.act a → 0 < k.zinv_ub[a] * k.s_ub[a] + k.delta) (j : Fin n) : 0 ≤ C13.boxTerm d k j := by
+  unfold C13.boxTerm
+  apply add_nonneg
+  · apply Finset.sum_nonneg; intro a _
+    split
+    · rename_i h; exact div_nonneg (mul_self_nonneg _) (le_of_lt (hl a h.1))
+    · exact le_refl _
+  · apply Finset.sum_nonneg; intro a _
+    split
+    · rename_i h; exact div_nonneg (mul_self_nonneg _) (le_of_lt (hu a h.1))
+    · exact le_refl _
+
+/-- **C02 / C12, mechanism: on a convex problem the sparse factorisation never fails** (exact arithmetic, no static
+    regularisation). If the reduced matrix is coherent with the data (C13: `init`, `update_scalings`, `update_data` keep it
+    so), `P ⪰ 0`, `ρ, δ > 0` and the scalings of the inequality and active box blocks are positive — every interior iterate —
+    then `regularize_and_factorize` succeeds for all four sparse formulations and **every** fill-reducing permutation. Hence,
+    in exact arithmetic, the retry logic is never entered and NUMERICS is never returned on such a problem. -/
+theorem sparse_factorisation_never_fails (be : Backend) (st : KKTSettings K) (d : Data K n p m) (k : KKT K n p m)
+    (perm : Vector (Fin (n + p + m)) (n + p + m)) (hperm : IsPerm perm) (hc : C13.Coherent be d k)
+    (hP : ∀ x : Vec K n, 0 ≤ quad d.Psym x) (hρ : 0 < k.rho) (hδ : 0 < k.delta)
+    (hw : ∀ t : Fin m, 0 < k.s[t] * k.zinv[t] + k.delta)
+    (hl : ∀ a : Fin n, d.lb.act a → 0 < k.zinv_lb[a] * k.s_lb[a] + k.delta)
+    (hu : ∀ a : Fin n, d.ub.act a → 0 < k.zinv_ub[a] * k.s_ub[a] + k.delta) :
+    (KKT.regFactor be st d k false (innerLDLT be perm)).factOk = true := by
+  unfold KKT.regFactor KKT.factOk
+  simp only [Bool.false_eq_true, if_false]
+  apply innerLDLT_succeeds be perm hperm k.k (coherent_xx_symm be d k hc)
+    (coherent_xx_pd be d k hc hP hρ hδ hw (boxTerm_nonneg d k hl hu))
+  · intro hk t; rw [hc.yy hk t]; linarith
+  · intro hk t; rw [hc.zz hk t]; have := hw t; linarith
+
+/-- the same for the dense back end (Cholesky of the fully reduced block), given an exact square root -/
+theorem dense_factorisation_never_fails (sqrtF : K → K) (hsq : ExactSqrt sqrtF) (st : KKTSettings K) (d : Data K n p m) (k : KKT K n p m)
+    (hc : C13.Coherent .dense d k)
+    (hP : ∀ x : Vec K n, 0 ≤ quad d.Psym x) (hρ : 0 < k.rho) (hδ : 0 < k.delta)
+    (hw : ∀ t : Fin m, 0 < k.s[t] * k.zinv[t] + k.delta)
+    (hl : ∀ a : Fin n, d.lb.act a → 0 < k.zinv_lb[a] * k.s_lb[a] + k.delta)
+    (hu : ∀ a : Fin n, d.ub.act a → 0 < k.zinv_ub[a] * k.s_ub[a] + k.delta) :
+    (KKT.regFactor .dense st d k false (innerLLT sqrtF)).factOk = true := by
+  have hpd := coherent_xx_pd .dense d k hc hP hρ hδ hw (boxTerm_nonneg d k hl hu)
+  have hq : QDef (fun _ : Fin n => true) k.k.xx :=
+    ⟨coherent_xx_symm .dense d k hc, fun x _ hne => hpd x hne, fun x hx hne => by
+      obtain ⟨i, hi⟩ := hne
+      exact absurd (hx i rfl) hi⟩
+  obtain ⟨L, hL⟩ := pd_llt_ok sqrtF hsq n k.k.xx hq
+  unfold KKT.regFactor KKT.factOk innerLLT
+  simp only [Bool.false_eq_true, if_false, hL]
+  rfl
+end assembled
+end qd
 end Piqp.C14
